@@ -283,6 +283,9 @@ impl TypeScript {
                 content_key,
                 shared,
             } => shared.variants.iter().try_for_each(|v| {
+                // Like any other property name, a key that is not an identifier is quoted.
+                let tag_key = typescript_property_aware_rename(tag_key);
+                let content_key = typescript_property_aware_rename(content_key);
                 writeln!(w)?;
                 self.write_comments(w, 1, &v.shared().comments)?;
                 match v {
